@@ -32,6 +32,7 @@ const nSlotsReal = node.NodeIDMax
 type nodeRig struct {
 	s       *sched.Sched
 	claim   *doubles.Store
+	fault   *faultArm
 	caches  map[string]*doubles.Store
 	allocs  map[string]*node.NodeIDAllocator
 	nctx    map[string]context.Context
@@ -60,6 +61,8 @@ func newNodeRig(wiring string, nodes []string, nslots int, taken []int, free, re
 	r.cancel = cancel
 	r.claim = doubles.NewStore("shared", r.s)
 	r.claim.RealTTL = realTTL
+	r.fault = &faultArm{}
+	r.claim.Fault = r.fault.fn
 	// only the contended slots are scheduling points; heartbeat goroutines (unknown to the
 	// scheduler, Adopt == nil) always pass ungated
 	r.claim.GateOn = func(op, key string) bool {
@@ -105,6 +108,51 @@ func (r *nodeRig) close() {
 	r.cancel()
 }
 
+// foreignLost lists the slots beyond the contended range (held by foreign live nodes throughout)
+// whose claim key is gone.
+func (r *nodeRig) foreignLost() []int {
+	var out []int
+	for s := r.nslots + 1; s <= nSlotsReal; s++ {
+		if _, ok := r.claim.Peek(slotKey(s)); !ok {
+			out = append(out, s)
+		}
+	}
+	return out
+}
+
+// snapshot closes a trace: the Cfg event lists as "taken" the pre-existing slots of the behaviour;
+// the 998 foreign slots beyond the contended range are taken too, but only those that matter are
+// listed (a subset of the truth keeps the judge sound and the trace small): the ones handed out by
+// a call and the ones whose claim key has vanished. markers = live claim keys among all listed ids.
+func (r *nodeRig) snapshot(t *fw.Trace) {
+	extra := map[int]bool{}
+	for _, s := range r.foreignLost() {
+		extra[s] = true
+	}
+	for _, e := range t.Events {
+		if e["ev"] == "Ret" && e["op"] == "Gen" && e["ok"] == true {
+			if s := slotOfKey(node.NodeIDKeyPrefix + fmt.Sprint(e["id"])); s > r.nslots {
+				extra[s] = true
+			}
+		}
+	}
+	taken, _ := t.Events[0]["taken"].([]any)
+	ms := r.markers()
+	var xs []int
+	for s := range extra {
+		xs = append(xs, s)
+	}
+	sort.Ints(xs)
+	for _, s := range xs {
+		taken = append(taken, slotName(s))
+		if _, ok := r.claim.Peek(slotKey(s)); ok {
+			ms = append(ms, slotName(s))
+		}
+	}
+	t.Events[0]["taken"] = taken
+	t.Events = append(t.Events, fw.Event{"ev": "Snap", "markers": ms, "quiet": true})
+}
+
 func (r *nodeRig) markers() []any {
 	out := []string{}
 	for s := 1; s <= r.nslots; s++ {
@@ -146,7 +194,8 @@ func (r *nodeRig) alloc(n string) (res genRes) {
 	}()
 	id, err := r.allocs[n].AllocateNodeID(r.nctx[n])
 	if err != nil {
-		return genRes{ok: false, err: nodeErrClass(err)}
+		// own: what the allocator itself reports as its id after the failure (must be nothing)
+		return genRes{ok: false, err: nodeErrClass(err), own: r.allocs[n].GetNodeID()}
 	}
 	return genRes{ok: true, id: id}
 }
@@ -219,7 +268,11 @@ func driveNode(env *fw.Env, b *behaviour) *fw.Trace {
 		if a.op == "Rel" {
 			res.id = a.id
 		}
-		t.Events = append(t.Events, fw.Event{"ev": "Ret", "p": a.p, "op": a.op, "ok": res.ok, "id": res.id, "err": res.err})
+		ev := fw.Event{"ev": "Ret", "p": a.p, "op": a.op, "ok": res.ok, "id": res.id, "err": res.err}
+		if a.op == "Gen" && !res.ok {
+			ev["own"] = res.own
+		}
+		t.Events = append(t.Events, ev)
 		if a.op == "Gen" && res.ok {
 			hold[a.p] = slotOfKey(node.NodeIDKeyPrefix + res.id)
 			lastW[a.p] = time.Now()
@@ -249,7 +302,7 @@ func driveNode(env *fw.Env, b *behaviour) *fw.Trace {
 			logRet(a)
 		}
 		observeExpiries()
-		t.Events = append(t.Events, fw.Event{"ev": "Snap", "markers": r.markers(), "quiet": true})
+		r.snapshot(t)
 		t.Note = note
 		return t
 	}
@@ -290,7 +343,13 @@ func driveNode(env *fw.Env, b *behaviour) *fw.Trace {
 				s0, g := r.s.State(a.name)
 				return div("allocation is %s at %q %v, model expects the SetNX of slot %d", s0, g.Point, g.Info["key"], st.C)
 			}
+			if st.R == "fretry" || st.R == "ferr" {
+				r.fault.arm("SetNX", slotKey(st.C)) // the single store fault: this SetNX returns an error
+			}
 			ns, _ := r.s.Step(a.name)
+			if (st.R == "fretry" || st.R == "ferr") && !r.fault.spent() {
+				return &fw.Trace{Status: fw.DriverError, Note: "the armed store fault was not consumed by SetNX"}
+			}
 			switch st.R {
 			case "ok":
 				if ns != sched.Done {
@@ -300,11 +359,11 @@ func driveNode(env *fw.Env, b *behaviour) *fw.Trace {
 				if res, _ := r.s.Result(a.name).(genRes); !res.ok || res.id != slotName(st.C) {
 					return div("model expects %s, real allocation returned ok=%v id=%q err=%q", slotName(st.C), res.ok, res.id, res.err)
 				}
-			case "retry":
+			case "retry", "fretry":
 				if !at(a, "SetNX", st.C+1) {
 					return div("expected the SetNX of slot %d next, is %s", st.C+1, ns)
 				}
-			case "err":
+			case "err", "ferr":
 				if ns != sched.Done {
 					return div("expected the allocation to fail, is %s", ns)
 				}
@@ -314,6 +373,19 @@ func driveNode(env *fw.Env, b *behaviour) *fw.Trace {
 				}
 			}
 		case "CallRel":
+			if st.R == "noop" {
+				// Release by an allocator whose allocation failed: it holds nothing and must touch no key
+				a := &ncall{name: st.P + ".rel", p: st.P, op: "Rel", id: ""}
+				cur[st.P] = a
+				started = append(started, a)
+				t.Events = append(t.Events, fw.Event{"ev": "Call", "p": st.P, "op": "Rel", "id": ""})
+				n := st.P
+				if state := r.s.Start(a.name, func() any { return r.release(n, "") }); state != sched.Done {
+					return div("release of a failed allocator is %s, model expects it to return at once", state)
+				}
+				logRet(a)
+				continue
+			}
 			id := slotName(hold[st.P])
 			a := &ncall{name: st.P + ".rel", p: st.P, op: "Rel", id: id}
 			cur[st.P] = a
@@ -440,9 +512,14 @@ func driveNodeFree(env *fw.Env, b *behaviour) *fw.Trace {
 			mu.Unlock()
 			res := r.alloc(n)
 			mu.Lock()
-			t.Events = append(t.Events, fw.Event{"ev": "Ret", "p": n, "op": "Gen", "ok": res.ok, "id": res.id, "err": res.err})
+			ev := fw.Event{"ev": "Ret", "p": n, "op": "Gen", "ok": res.ok, "id": res.id, "err": res.err}
+			if !res.ok {
+				ev["own"] = res.own
+			}
+			t.Events = append(t.Events, ev)
 			mu.Unlock()
-			if res.ok && prnd.Intn(2) == 0 {
+			if res.ok && prnd.Intn(2) == 0 || !res.ok {
+				// (a failed allocator's shutdown path calls Release too: it must touch nothing)
 				mu.Lock()
 				t.Events = append(t.Events, fw.Event{"ev": "Call", "p": n, "op": "Rel", "id": res.id})
 				mu.Unlock()
@@ -460,6 +537,6 @@ func driveNodeFree(env *fw.Env, b *behaviour) *fw.Trace {
 	case <-time.After(3 * time.Minute):
 		return &fw.Trace{Status: fw.DriverError, Note: "free-running allocators did not finish"}
 	}
-	t.Events = append(t.Events, fw.Event{"ev": "Snap", "markers": r.markers(), "quiet": true})
+	r.snapshot(t)
 	return t
 }
